@@ -295,9 +295,11 @@ def _integrateOneStep(r, t, func, jac, args=(), full_output=False):
     if r.successful():
         if full_output:
             e = np.linalg.eig(jac(r.t, r.y, *args))[0]
-            return r.y, r.successful(), e, max(e), min(e)
+            return r.y.copy(), r.successful(), e, max(e), min(e)
         else:
-            return r.y
+            # r.y may be the working array of the integrator (lsoda), which is
+            # overwritten by the next call to integrate
+            return r.y.copy()
     else:
         try:
             np.linalg.eig(jac(r.t, r.y, *args))
